@@ -10,6 +10,7 @@
 
 mod alloc;
 mod crash;
+mod drive;
 mod framework;
 mod gen;
 mod json;
@@ -53,6 +54,14 @@ macro_rules! dispatch {
                 };
                 $body
             }
+            "C01" => {
+                let $p = &props::parsers::C01;
+                $body
+            }
+            "C04" => {
+                let $p = &props::parsers::C04;
+                $body
+            }
             "C11" => {
                 let $p = &props::writer::WriterProp { c14: false };
                 $body
@@ -72,6 +81,8 @@ macro_rules! dispatch {
 /// Components that make up each manifest property.
 fn components(property: &str) -> Vec<&'static str> {
     match property {
+        "C01" => vec!["C01"],
+        "C04" => vec!["C04"],
         "C02" => vec!["C02"],
         "C09" => vec!["C09r"],
         "C11" => vec!["C11"],
@@ -445,6 +456,49 @@ fn cmd_check(property: &str, tier: Tier) -> i32 {
     }
 }
 
+/// Developer aid: how often do "grammar-valid" documents really parse to a clean end?
+fn cmd_gencheck() -> i32 {
+    use drive::{transcript, Ctor, Outcome, PCfg, ALL_KINDS};
+    use std::rc::Rc;
+    for kind in ALL_KINDS {
+        let mut ok = 0;
+        let mut bad = 0;
+        let mut shown = 0;
+        for i in 0..3000u64 {
+            let mut rng = rng::Rng::new(i * 7919 + 13);
+            let cfg = PCfg {
+                kind,
+                lit: rng.below(5) as u8,
+                flag: rng.chance(1, 3),
+                whole: false,
+            };
+            let size = rng.below(3);
+            let d = gen::valid(&mut rng, &cfg, size);
+            let src = source::SimSource::new(Rc::new(d.bytes.clone()), source::SourceCfg::one_shot());
+            let t = transcript(&cfg, &Ctor::default_one_shot(), src, 0);
+            let counted_ok = t.counted == d.item_ends.len();
+            if t.outcome == Outcome::CleanEnd && counted_ok {
+                ok += 1;
+            } else {
+                bad += 1;
+                if shown < 4 {
+                    shown += 1;
+                    println!(
+                        "  {} NOT CLEAN: {} (items {} vs expected {})\n    doc={}",
+                        cfg.describe(),
+                        t.outcome.short(),
+                        t.counted,
+                        d.item_ends.len(),
+                        json::show_bytes(&d.bytes)
+                    );
+                }
+            }
+        }
+        println!("{}: clean={} not_clean={}", kind.name(), ok, bad);
+    }
+    0
+}
+
 fn main() {
     let args: Vec<String> = std::env::args().collect();
     crash::install_hook();
@@ -461,6 +515,7 @@ fn main() {
             0
         }
         Some("replay") if args.len() >= 3 => cmd_replay(&args[2]),
+        Some("gencheck") => cmd_gencheck(),
         _ => {
             eprintln!(
                 "usage: flussab-sim check <PROPERTY> <quick|thorough> | part <COMP> <tier> <seed> <out> | replay <file>"
